@@ -130,29 +130,40 @@ func worker(readyc <-chan *ScheduledJob, donec chan<- jobResult) {
 		currentJob  *ScheduledJob
 		exitCleanly bool
 	)
+	verifWorker(verifWStart, readyc, &exitCleanly, nil, nil)
 	defer func() {
 		if exitCleanly {
+			verifWorker(verifWExit, readyc, &exitCleanly, nil, nil)
 			return
 		}
+		verifWorker(verifWDie, readyc, &exitCleanly, currentJob, nil)
 		donec <- jobResult{Job: currentJob, Err: errors.New("job exited unexpectedly")}
+		verifWorker(verifWPosted, readyc, &exitCleanly, currentJob, nil)
 		go worker(readyc, donec)
 	}()
 
 	for j := range readyc {
 		res := jobResult{Job: j}
 		currentJob = j
+		verifWorker(verifWGot, readyc, &exitCleanly, j, nil)
 
 		if err := j.ctx.Err(); err != nil {
 			// Don't run if context already cancelled.
 			res.Err = err
+			verifWorker(verifWSkip, readyc, &exitCleanly, j, err)
 		} else if j.invalid {
 			// Don't run if marked as invalid.
 			res.Err = errJobInvalid
+			verifWorker(verifWSkip, readyc, &exitCleanly, j, errJobInvalid)
 		} else {
+			verifWorker(verifWRun, readyc, &exitCleanly, j, nil)
 			res.Err = j.run(j.ctx)
+			verifWorker(verifWEnd, readyc, &exitCleanly, j, res.Err)
 		}
 		currentJob = nil
+		verifWorker(verifWPrePost, readyc, &exitCleanly, j, res.Err)
 		donec <- res
+		verifWorker(verifWPosted, readyc, &exitCleanly, j, res.Err)
 	}
 	exitCleanly = true
 }
@@ -264,6 +275,8 @@ func (c Config) New() *Scheduler {
 		continueOnError: c.ContinueOnError,
 	}
 
+	verifNew(sched)
+
 	// We lie to the caller about the number of goroutines. Spawn one
 	// extra goroutine for the Scheduler Loop.
 	go sched.run(c.Emitter, c.StateFlushFrequency)
@@ -322,7 +335,9 @@ func (s *Scheduler) Enqueue(ctx context.Context, j Job) *ScheduledJob {
 		run:  j.Run,
 		deps: j.Dependencies,
 	}
+	verifCaller(verifCEnqSend, s, pj, nil)
 	s.enqueuec <- pj // panics if closed
+	verifCaller(verifCEnqSent, s, pj, nil)
 	return pj
 }
 
@@ -338,6 +353,7 @@ func (s *Scheduler) Enqueue(ctx context.Context, j Job) *ScheduledJob {
 //     its completion. Those that have no more dependencies outstanding are
 //     moved to the `ready` list.
 func (s *Scheduler) run(emitter Emitter, freq time.Duration) {
+	defer verifLoop(verifLFinished, s, nil, nil)
 	defer close(s.finishedc) // unblock Wait()
 	defer close(s.readyc)    // kill workers
 
@@ -355,7 +371,9 @@ func (s *Scheduler) run(emitter Emitter, freq time.Duration) {
 	// need to process the remaining Enqueue invocations so that we get
 	// to sched.Wait.
 	defer func() {
+		verifLoop(verifLReturn, s, nil, nil)
 		for range s.enqueuec {
+			verifLoop(verifLDrained, s, nil, nil)
 		}
 	}()
 
@@ -389,6 +407,7 @@ func (s *Scheduler) run(emitter Emitter, freq time.Duration) {
 	enqueuec := s.enqueuec
 
 	for {
+		verifLoop(verifLIter, s, nil, nil)
 		// If there's at least one job ready to be executed, grab it.
 		// If no jobs are ready, this leaves `readyc` as nil. Trying
 		// to insert into a nil channel never resolves so the select
@@ -412,6 +431,7 @@ func (s *Scheduler) run(emitter Emitter, freq time.Duration) {
 			ready.Remove(nextEl)
 
 			ongoing++
+			verifLoop(verifLDispatched, s, next, nil)
 
 		case job, ok := <-enqueuec:
 			// Wait was called and the enqueue channel was closed.
@@ -419,6 +439,7 @@ func (s *Scheduler) run(emitter Emitter, freq time.Duration) {
 			// again. (A nil channel never resolves.)
 			if !ok {
 				enqueuec = nil
+				verifLoop(verifLEnqClosed, s, nil, nil)
 				break
 			}
 
@@ -446,10 +467,12 @@ func (s *Scheduler) run(emitter Emitter, freq time.Duration) {
 			} else {
 				waiting++
 			}
+			verifLoop(verifLEnqRecv, s, job, nil)
 
 		case res := <-s.donec:
 			job := res.Job
 			job.done = true
+			verifLoop(verifLDoneRecv, s, job, res.Err)
 
 			pending--
 			ongoing--
@@ -489,6 +512,13 @@ func (s *Scheduler) run(emitter Emitter, freq time.Duration) {
 			// never resolves.
 			// Note: Phab marks this line as untested, but we believe this is
 			// tested (GM-876).
+			verifTick(s, State{
+				Pending:     pending,
+				Ready:       ready.Len(),
+				Waiting:     waiting,
+				IdleWorkers: idleWorkers(s.concurrency, ongoing),
+				Concurrency: s.concurrency,
+			}, ongoing)
 			emitter.Emit(
 				State{
 					Pending:     pending,
@@ -516,9 +546,11 @@ func (s *Scheduler) run(emitter Emitter, freq time.Duration) {
 //
 // No new jobs may be enqueued once Wait is called.
 func (s *Scheduler) Wait(ctx context.Context) error {
+	verifCaller(verifCWaitCalled, s, nil, nil)
 	close(s.enqueuec) // disallow new Enqueues
 	select {
 	case <-ctx.Done():
+		verifCaller(verifCWaitRetCtx, s, nil, ctx.Err())
 		return ctx.Err()
 	case <-s.finishedc: // wait for Scheduler Loop to exit
 		err := s.err
@@ -529,6 +561,7 @@ func (s *Scheduler) Wait(ctx context.Context) error {
 		if err == nil {
 			err = ctx.Err()
 		}
+		verifCaller(verifCWaitRetFin, s, nil, err)
 		return err
 	}
 }
